@@ -68,36 +68,39 @@ func MsgNodes(reg *template.Registry) []*ast.MsgNode {
 }
 
 // Observe reads names, placeholder string and id off a compiled message.
-// Visiting order as in SoyMsg.MsgNodeParts: top-level placeholders and
-// plurals, then the placeholders of each plural's cases and default.
+// Visiting order as in SoyMsg.MsgNodeParts: breadth first with a queue -- the
+// top-level placeholders and plurals, then the nodes of each plural's cases
+// and default appended behind everything already queued, and so on.
 func Observe(m *ast.MsgNode) (o Obs, err error) {
 	defer func() {
 		if r := recover(); r != nil {
 			err = fmt.Errorf("PANIC reading message: %v", r)
 		}
 	}()
-	var plurals []*ast.MsgPluralNode
-	phs := func(p ast.ParentNode) {
+	substOf := func(p ast.ParentNode) []ast.Node {
+		var r []ast.Node
 		for _, c := range p.Children() {
-			if ph, ok := c.(*ast.MsgPlaceholderNode); ok {
-				o.Names = append(o.Names, ph.Name)
+			switch c.(type) {
+			case *ast.MsgPlaceholderNode, *ast.MsgPluralNode:
+				r = append(r, c)
 			}
 		}
+		return r
 	}
-	for _, c := range m.Body.Children() {
-		switch c := c.(type) {
+	queue := substOf(m.Body)
+	for len(queue) > 0 {
+		n := queue[0]
+		queue = queue[1:]
+		switch n := n.(type) {
 		case *ast.MsgPlaceholderNode:
-			o.Names = append(o.Names, c.Name)
+			o.Names = append(o.Names, n.Name)
 		case *ast.MsgPluralNode:
-			o.Names = append(o.Names, c.VarName)
-			plurals = append(plurals, c)
+			o.Names = append(o.Names, n.VarName)
+			for _, cs := range n.Cases {
+				queue = append(queue, substOf(cs.Body)...)
+			}
+			queue = append(queue, substOf(n.Default)...)
 		}
-	}
-	for _, pl := range plurals {
-		for _, cs := range pl.Cases {
-			phs(cs.Body)
-		}
-		phs(pl.Default)
 	}
 	if o.Names == nil {
 		o.Names = []string{}
